@@ -143,6 +143,17 @@ def check(ctx: Ctx, col: Collector, tier: str) -> None:
         infer = [x for x in ast.walk(fi.node) if isinstance(x, ast.Assign) and isinstance(x.value, ast.Call) and getattr(x.value.func, "id", "") == "mypy_expression_to_sds_type"
                  and x.value.args and ast.unparse(x.value.args[0]) == "initializer"]
         doc_names = {t.id for x in ast.walk(fi.node) if isinstance(x, ast.Assign) and "docstring_parser" in ast.unparse(x.value) for t in x.targets if isinstance(t, ast.Name)} | {"docstring"}
+        # ... and everything computed from it
+        grew = True
+        while grew:
+            grew = False
+            for x in ast.walk(fi.node):
+                if isinstance(x, (ast.Assign, ast.AnnAssign)) and x.value is not None and {n.id for n in ast.walk(x.value) if isinstance(n, ast.Name)} & doc_names:
+                    for t in (x.targets if isinstance(x, ast.Assign) else [x.target]):
+                        for n in ast.walk(t):
+                            if isinstance(n, ast.Name) and n.id not in doc_names and n.id != "arguments":
+                                doc_names.add(n.id)
+                                grew = True
         probs_d = []
         for x in infer:
             cur, prev = repo.parent(x), x
